@@ -8,6 +8,9 @@ from multiprocessing import Pool
 from . import findings as findings_mod
 
 VERIF = os.path.dirname(os.path.dirname(os.path.abspath(__file__)))
+# development aid: evidence / replay files of runs against a scratch copy of the repository
+# (VERIF_REPO) go to VERIF_OUT instead of /verif
+OUT = os.environ.get("VERIF_OUT", VERIF)
 NPROC = int(os.environ.get("VERIF_NPROC", "16"))
 
 
@@ -61,17 +64,17 @@ class Report:
             what, n = self.known.get(f["id"], (f["what"], 0))
             self.known[f["id"]] = (what, n + 1)
             return False
-        d = os.path.join(VERIF, "replays", self.pid)
+        d = os.path.join(OUT, "replays", self.pid)
         os.makedirs(d, exist_ok=True)
         name = replay_obj.get("hash", str(len(self.violations))) + ".json"
         path = os.path.join(d, name)
         replay_obj = dict(replay_obj)
         replay_obj["property"] = self.pid
         replay_obj["signature"] = sig
-        replay_obj["rerun"] = f"./check {self.pid} --replay {os.path.relpath(path, VERIF)}"
+        replay_obj["rerun"] = f"./check {self.pid} --replay {os.path.relpath(path, OUT)}"
         with open(path, "w") as fo:
             json.dump(replay_obj, fo, indent=1, sort_keys=True, default=list)
-        self.violations.append((sig, os.path.relpath(path, VERIF), summary))
+        self.violations.append((sig, os.path.relpath(path, OUT), summary))
         return True
 
     # ------------------------------------------------------------------ finish
@@ -100,8 +103,8 @@ class Report:
             "wall_s": round(wall, 2),
             "violations": len(self.violations),
         }
-        os.makedirs(os.path.join(VERIF, "evidence"), exist_ok=True)
-        with open(os.path.join(VERIF, "evidence", f"{self.pid}.json"), "w") as f:
+        os.makedirs(os.path.join(OUT, "evidence"), exist_ok=True)
+        with open(os.path.join(OUT, "evidence", f"{self.pid}.json"), "w") as f:
             json.dump(ev, f, indent=1, default=list)
         for fid, (what, n) in sorted(self.known.items()):
             print(f"KNOWN-FINDING: property={self.pid} {what} [{fid}; {n} cases]")
